@@ -778,6 +778,7 @@ type c15Env struct {
 	handleCommand *types.Func
 	mayCommand    map[*types.Func]bool
 	decls         map[*types.Func]*ast.FuncDecl
+	hm            *c15HitModel // c15g.go
 }
 
 const c15VxfwPath = modPath + "/vxfw"
@@ -881,7 +882,9 @@ func runC15(c *Ctx) {
 	c.expect("C15.i", 7)
 
 	// helper extraction is undone first: the rules below look at the named functions with their helpers inlined
+	c15InlineClosures = true // local closures introduced for a repeated tail are undone as well (c15norm3.go)
 	c15Normalise(c, []string{"vxfw"}, c15Anchors)
+	c15InlineClosures = false
 	// the package may have been re-type-checked: the side tables derived from the old syntax trees and types.Info
 	// (single-definition local aliases used by canonPath, accessor summaries) are rebuilt, as after the global pass
 	installAccessorResolver(c.P)
@@ -1265,43 +1268,65 @@ func (e *c15Env) ruleA(name string, list *types.Var, mouse bool) {
 				c.undecided("C15.a", name+"/bubble loop", bubFor.Pos(), "loop variable not recognised")
 			} else {
 				iT := c15LinOf(info, bubFor.Init.(*ast.AssignStmt).Lhs[0])
-				got := c15LinOf(info, initE)
-				c.check(got.canon() == listLen.plus(-2).canon(), "C15.a", name+"/bubble starts at len-2", initE.Pos(),
-					"starts at the parent of the target", "the bubble loop starts at "+got.String()+" instead of len("+list.Name()+")-2: "+map[bool]string{true: "the target receives the event a second time in the bubble phase", false: "the nearest ancestors are skipped"}[got.add(listLen, -1).k > -2])
-				// cond  <=>  i >= 0
-				cf := c15Formula(info, bubFor.Cond)
-				geq0 := iT.neg() // -i <= 0
-				atoms, isConj := c15Conj(cf)
-				okCond := isConj && len(atoms) == 1 && atoms[0].canon() == geq0.canon()
-				c.check(okCond, "C15.a", name+"/bubble runs down to index 0", bubFor.Cond.Pos(), "continues while i >= 0 (the root is the last to be offered the event)",
-					"the bubble loop condition "+types.ExprString(bubFor.Cond)+" is not i >= 0: the root (or more) is not offered the event, or the index leaves the list")
-				okPost := false
-				switch p := bubFor.Post.(type) {
-				case *ast.IncDecStmt:
-					okPost = p.Tok == token.DEC && rootObj(info, p.X) == iObj
-				case *ast.AssignStmt:
-					if len(p.Lhs) == 1 && len(p.Rhs) == 1 && rootObj(info, p.Lhs[0]) == iObj {
-						if p.Tok == token.SUB_ASSIGN {
-							v, ok := constInt(info, p.Rhs[0])
-							okPost = ok && v == 1
-						} else if p.Tok == token.ASSIGN {
-							okPost = c15LinOf(info, p.Rhs[0]).canon() == iT.plus(-1).canon()
-						}
-					}
-				}
-				c.check(okPost, "C15.a", name+"/bubble steps by -1", bubFor.Post.Pos(), "visits every ancestor, nearest first", "the bubble loop post statement is not a decrement by one: ancestors are skipped or visited in the wrong order")
-				mod := false
-				mod = assignsAny(info, bubFor.Body, map[types.Object]bool{iObj: true})
+				// The element visited is list[idx] with idx = s*i + r (s = +1/-1, r a constant): `for i := len-2; i >= 0; i--`
+				// with list[i], `for next := len-1; next > 0; next--` with list[next-1], ... The three loop clauses are
+				// judged on idx, which is what the routing contract speaks about: idx starts at len-2, the loop runs
+				// exactly while idx >= 0, and idx goes down by one per iteration.
+				sgn, rest := int64(1), c15Const(0)
+				mod := assignsAny(info, bubFor.Body, map[types.Object]bool{iObj: true})
 				okRecv := false
 				if sel, ok := bubS.call.Fun.(*ast.SelectorExpr); ok {
 					if el := elemOf(sel.X); el != nil {
 						if ix, ok := el.(*ast.IndexExpr); ok && isList(ix.X) {
-							if id, ok := unparen(ix.Index).(*ast.Ident); ok && info.ObjectOf(id) == iObj {
-								okRecv = true
+							idx := c15LinRes(info, defs, ix.Index)
+							for t, v := range iT.co {
+								if v == 1 && (idx.co[t] == 1 || idx.co[t] == -1) {
+									s := idx.co[t]
+									r := idx.add(iT, -s)
+									if len(r.co) == 0 {
+										sgn, rest, okRecv = s, r, true
+									}
+								}
 							}
 						}
 					}
 				}
+				idxOf := func(l c15Lin) c15Lin { // idx as a function of the loop variable's value
+					if sgn < 0 {
+						return l.neg().add(rest, 1)
+					}
+					return l.add(rest, 1)
+				}
+				got := idxOf(c15LinOf(info, initE))
+				c.check(got.canon() == listLen.plus(-2).canon(), "C15.a", name+"/bubble starts at len-2", initE.Pos(),
+					"starts at the parent of the target", "the bubble loop starts at "+got.String()+" instead of len("+list.Name()+")-2: "+map[bool]string{true: "the target receives the event a second time in the bubble phase", false: "the nearest ancestors are skipped"}[got.add(listLen, -1).k > -2])
+				// cond  <=>  idx >= 0
+				cf := c15Formula(info, bubFor.Cond)
+				geq0 := idxOf(iT).neg() // -idx <= 0
+				atoms, isConj := c15Conj(cf)
+				okCond := isConj && len(atoms) == 1 && atoms[0].canon() == geq0.canon()
+				c.check(okCond, "C15.a", name+"/bubble runs down to index 0", bubFor.Cond.Pos(), "continues while the index is >= 0 (the root is the last to be offered the event)",
+					"the bubble loop condition "+types.ExprString(bubFor.Cond)+" is not index >= 0: the root (or more) is not offered the event, or the index leaves the list")
+				// post: idx goes down by one, i.e. i changes by -s
+				okPost := false
+				switch p := bubFor.Post.(type) {
+				case *ast.IncDecStmt:
+					okPost = rootObj(info, p.X) == iObj && ((p.Tok == token.DEC && sgn > 0) || (p.Tok == token.INC && sgn < 0))
+				case *ast.AssignStmt:
+					if len(p.Lhs) == 1 && len(p.Rhs) == 1 && rootObj(info, p.Lhs[0]) == iObj {
+						switch p.Tok {
+						case token.SUB_ASSIGN:
+							v, ok := constInt(info, p.Rhs[0])
+							okPost = ok && v == sgn
+						case token.ADD_ASSIGN:
+							v, ok := constInt(info, p.Rhs[0])
+							okPost = ok && v == -sgn
+						case token.ASSIGN:
+							okPost = c15LinOf(info, p.Rhs[0]).canon() == iT.plus(-sgn).canon()
+						}
+					}
+				}
+				c.check(okPost, "C15.a", name+"/bubble steps by -1", bubFor.Post.Pos(), "visits every ancestor, nearest first", "the bubble loop post statement does not move the index down by one: ancestors are skipped or visited in the wrong order")
 				c.check(okRecv && !mod, "C15.a", name+"/bubble is called on "+list.Name()+"[i]", bubS.call.Pos(), "receiver is the i-th element of the list", "the bubble-phase call does not go to "+list.Name()+"[i] (or i is modified in the body)")
 			}
 		}
@@ -1363,6 +1388,37 @@ func (e *c15Env) ruleA(name string, list *types.Var, mouse bool) {
 		return c15Clean
 	}
 	pf := c15NewPFlow(g, transfer, edge)
+	// `consumed := app.consumeEvent` is the consume test taken early: from here on the local says which edge of the
+	// test the path is on (consumed: the path of a consumed event, as on the true edge; not consumed: the flag is known
+	// false). The later `if consumed` is followed along the feasible edge only.
+	pf.split = func(n ast.Node, env string, st int) []c15Out {
+		var lhs, rhs ast.Expr
+		switch t := n.(type) {
+		case *ast.AssignStmt:
+			if len(t.Lhs) == 1 && len(t.Rhs) == 1 && (t.Tok == token.DEFINE || t.Tok == token.ASSIGN) {
+				lhs, rhs = t.Lhs[0], t.Rhs[0]
+			}
+		case *ast.ValueSpec:
+			if len(t.Names) == 1 && len(t.Values) == 1 {
+				lhs, rhs = t.Names[0], t.Values[0]
+			}
+		}
+		if lhs == nil || c15Field(info, rhs) != flag {
+			return nil
+		}
+		id, ok := unparen(lhs).(*ast.Ident)
+		if !ok {
+			return nil
+		}
+		o := info.ObjectOf(id)
+		if o == nil || !pf.tracked[o] {
+			return nil
+		}
+		if st == c15Stop || st < 0 {
+			return []c15Out{{c15EnvSet(env, o, "t"), st}, {c15EnvSet(env, o, "f"), st}}
+		}
+		return []c15Out{{c15EnvSet(env, o, "t"), c15Stop}, {c15EnvSet(env, o, "f"), c15Clean}}
+	}
 	pf.run(g.Entry(), c15Dirty)
 	if oddTest {
 		c.undecided("C15.a", name+"/consume test form", fd.Pos(), "a condition mentions consumeEvent in a form the recogniser does not understand")
@@ -1591,49 +1647,158 @@ func (e *c15Env) ruleB() {
 	if ps := fi.Decl.Type.Params.List; len(ps) == 1 && len(ps[0].Names) == 1 {
 		param = info.Defs[ps[0].Names[0]]
 	}
-	var sw *ast.TypeSwitchStmt
 	nsw := 0
 	ast.Inspect(fi.Decl.Body, func(n ast.Node) bool {
-		if t, ok := n.(*ast.TypeSwitchStmt); ok {
+		if _, ok := n.(*ast.TypeSwitchStmt); ok {
 			nsw++
-			if sw == nil {
-				sw = t
-			}
 		}
 		return true
 	})
-	if sw == nil || nsw != 1 || recvObj == nil || param == nil || len(fi.Decl.Body.List) != 1 {
+	if recvObj == nil || param == nil {
 		c.undecided("C15.b", name+"/shape", fi.Decl.Pos(), "handleCommand is not a single type switch over its parameter")
 		return
 	}
-	// switched value must be the parameter
-	var swX ast.Expr
-	switch a := sw.Assign.(type) {
-	case *ast.AssignStmt:
-		if ta, ok := a.Rhs[0].(*ast.TypeAssertExpr); ok {
-			swX = ta.X
-		}
-	case *ast.ExprStmt:
-		if ta, ok := a.X.(*ast.TypeAssertExpr); ok {
-			swX = ta.X
-		}
-	}
-	if id, ok := unparen(swX).(*ast.Ident); !ok || info.Uses[id] != param {
-		c.undecided("C15.b", name+"/shape", sw.Pos(), "the type switch is not over the command parameter")
-		return
-	}
+	// The interpreter is a decision list over the dynamic type of the parameter: one type switch, or a type switch whose
+	// default clause continues with another type switch over the same value (the switch cut into categories; helper
+	// calls were inlined before). The clauses are listed in the order they are tried.
 	type clause struct {
 		cc    *ast.CaseClause
 		types []types.Type
 	}
 	var clauses []clause
-	for _, s := range sw.Body.List {
-		cc := s.(*ast.CaseClause)
-		cl := clause{cc: cc}
-		for _, x := range cc.List {
-			cl.types = append(cl.types, info.TypeOf(x))
+	var sw *ast.TypeSwitchStmt
+	visited := 0
+	same := map[types.Object]bool{param: true} // variables holding the command itself (with its static type Command)
+	tailLabels := map[types.Object]bool{}
+	// stripTail drops what is a no-op at the end of a statement list behind which nothing else runs
+	labelsOf := map[ast.Stmt][]types.Object{} // c15Flat drops the labels: they are remembered per labelled statement
+	var noteLabels func(list []ast.Stmt)
+	noteLabels = func(list []ast.Stmt) {
+		for _, st := range list {
+			switch t := st.(type) {
+			case *ast.BlockStmt:
+				noteLabels(t.List)
+			case *ast.LabeledStmt:
+				var ls []types.Object
+				var in ast.Stmt = t
+				for {
+					l, ok := in.(*ast.LabeledStmt)
+					if !ok {
+						break
+					}
+					ls = append(ls, info.ObjectOf(l.Label))
+					in = l.Stmt
+				}
+				labelsOf[in] = ls
+				noteLabels([]ast.Stmt{in})
+			}
 		}
-		clauses = append(clauses, cl)
+	}
+	var stripTail func(list []ast.Stmt) []ast.Stmt
+	stripTail = func(list []ast.Stmt) []ast.Stmt {
+		noteLabels(list)
+		list = c15Flat(list)
+		for len(list) > 0 {
+			switch t := list[len(list)-1].(type) {
+			case *ast.ReturnStmt:
+				if len(t.Results) == 0 {
+					list = list[:len(list)-1]
+					continue
+				}
+			case *ast.BranchStmt:
+				if t.Tok == token.BREAK && (t.Label == nil || tailLabels[info.ObjectOf(t.Label)]) {
+					list = list[:len(list)-1]
+					continue
+				}
+			case *ast.EmptyStmt:
+				list = list[:len(list)-1]
+				continue
+			}
+			break
+		}
+		return list
+	}
+	var collect func(list []ast.Stmt) bool
+	collect = func(list []ast.Stmt) bool {
+		list = stripTail(list)
+		if len(list) != 1 {
+			return false
+		}
+		st := list[0]
+		for _, l := range labelsOf[st] {
+			tailLabels[l] = true // the only statement of a list behind which nothing runs: leaving it is leaving the function
+		}
+		switch t := st.(type) {
+		case *ast.SwitchStmt:
+			// the one-shot `switch { default: ... }` the inliner wraps a helper body in
+			if t.Init == nil && t.Tag == nil && len(t.Body.List) == 1 {
+				if cc := t.Body.List[0].(*ast.CaseClause); cc.List == nil {
+					return collect(cc.Body)
+				}
+			}
+			return false
+		case *ast.TypeSwitchStmt:
+			if t.Init != nil {
+				return false
+			}
+			var swX ast.Expr
+			switch a := t.Assign.(type) {
+			case *ast.AssignStmt:
+				if ta, ok := unparen(a.Rhs[0]).(*ast.TypeAssertExpr); ok {
+					swX = ta.X
+				}
+			case *ast.ExprStmt:
+				if ta, ok := unparen(a.X).(*ast.TypeAssertExpr); ok {
+					swX = ta.X
+				}
+			}
+			if swX == nil {
+				return false
+			}
+			if id, ok := unparen(swX).(*ast.Ident); !ok || !same[info.Uses[id]] {
+				return false
+			}
+			if sw == nil {
+				sw = t
+			}
+			visited++
+			var deflt *ast.CaseClause
+			for _, s := range t.Body.List {
+				cc := s.(*ast.CaseClause)
+				if cc.List == nil {
+					deflt = cc
+					continue
+				}
+				cl := clause{cc: cc}
+				for _, x := range cc.List {
+					cl.types = append(cl.types, info.TypeOf(x))
+				}
+				clauses = append(clauses, cl)
+			}
+			if deflt != nil {
+				// in the default clause the bound variable is the switched value itself
+				if o := info.Implicits[deflt]; o != nil {
+					same[o] = true
+				}
+				before := len(clauses)
+				if !collect(deflt.Body) {
+					// an ordinary default clause (no further dispatch): tried last, matches no command type of its own
+					clauses = clauses[:before]
+					clauses = append(clauses, clause{cc: deflt})
+				}
+			}
+			return true
+		}
+		return false
+	}
+	okShape := collect(fi.Decl.Body.List) && sw != nil && visited == nsw
+	if okShape {
+		// the command variables are never reassigned (so every switch of the chain looks at the same value)
+		okShape = !assignsAny(info, fi.Decl.Body, same)
+	}
+	if !okShape {
+		c.undecided("C15.b", name+"/shape", fi.Decl.Pos(), "handleCommand is not a single type switch over its parameter")
+		return
 	}
 	flagFields := map[*types.Var]string{}
 	for _, ef := range c15Effects {
@@ -1700,7 +1865,7 @@ func (e *c15Env) ruleB() {
 		var calls []*ast.CallExpr
 		nested := false
 		var stmts []ast.Stmt
-		for _, st := range c15Flat(own.cc.Body) {
+		for _, st := range stripTail(own.cc.Body) {
 			// `if err := effect(); err != nil { log }` : the init statement is the effect
 			if ifs, ok := st.(*ast.IfStmt); ok && ifs.Init != nil {
 				stmts = append(stmts, ifs.Init, &ast.IfStmt{Cond: ifs.Cond, Body: ifs.Body, Else: ifs.Else})
@@ -2188,26 +2353,33 @@ func (e *c15Env) ruleDUpdate() {
 	}
 	lastHits := e.mh["lastHits"]
 	isLedger := func(x ast.Expr) bool { return x != nil && c15Field(info, x) == lastHits && rootObj(info, x) == recvObj }
-	// the new list: the variable stored into lastHits
-	var newObj types.Object
+	// the new list: the variable (or access path) stored into lastHits
+	var newExpr ast.Expr
+	newID := ""
 	nStores := 0
 	ast.Inspect(fi.Decl.Body, func(n ast.Node) bool {
 		if as, ok := n.(*ast.AssignStmt); ok && len(as.Lhs) == 1 && len(as.Rhs) == 1 && isLedger(as.Lhs[0]) {
 			nStores++
-			if id, ok := unparen(as.Rhs[0]).(*ast.Ident); ok {
-				newObj = info.ObjectOf(id)
+			if id := termOf(info, as.Rhs[0]).ID; !strings.HasPrefix(id, "expr:") && !strings.HasPrefix(id, "len(") {
+				newExpr, newID = as.Rhs[0], id
 			}
 		}
 		return true
 	})
-	if nStores != 1 || newObj == nil {
+	if nStores != 1 || newExpr == nil {
 		c.bad("C15.d", name+"/stores the new hit list", fi.Decl.Pos(), "expected exactly one store `lastHits = <new list variable>`, found %d: the ledger is not replaced by the list that was diffed", nStores)
 		return
 	}
-	c.ok("C15.d", name+"/stores the new hit list", fi.Decl.Pos(), "lastHits = %s", newObj.Name())
+	c.ok("C15.d", name+"/stores the new hit list", fi.Decl.Pos(), "lastHits = %s", types.ExprString(newExpr))
+	updDefs := c15DefsOf(info, fi.Decl.Body)
 	isNew := func(x ast.Expr) bool {
-		id, ok := unparen(x).(*ast.Ident)
-		return ok && info.ObjectOf(id) == newObj
+		if x == nil {
+			return false
+		}
+		if termOf(info, x).ID == newID {
+			return true
+		}
+		return termOf(info, updDefs.resolve(x)).ID == newID || termOf(info, x).ID == termOf(info, updDefs.resolve(newExpr)).ID
 	}
 	seen := map[string]int{}
 	for _, h := range g.Find(func(n ast.Node) bool {
@@ -2244,13 +2416,12 @@ func (e *c15Env) ruleDUpdate() {
 		}
 	}
 	// hit testing only when the pointer is inside the root surface
-	ht := c15Func(c, "vxfw.hitTest")
-	cp := c15Func(c, "vxfw.(*SubSurface).containsPoint")
-	if ht == nil || cp == nil {
+	hm := e.hitModel()
+	if hm.why != "" || hm.own == nil {
 		c.undecided("C15.d", name+"/hit test guarded by the root surface", fi.Decl.Pos(), "hitTest or containsPoint not found")
 		return
 	}
-	calls := g.Calls(func(fn *types.Func, call *ast.CallExpr) bool { return fn == ht.Obj })
+	calls := g.Calls(func(fn *types.Func, call *ast.CallExpr) bool { return fn == hm.H.Obj })
 	if len(calls) != 1 {
 		c.bad("C15.d", name+"/hit test guarded by the root surface", fi.Decl.Pos(), "expected one hitTest call, found %d", len(calls))
 		return
@@ -2272,32 +2443,49 @@ func (e *c15Env) ruleDUpdate() {
 		sel, ok := x.(*ast.SelectorExpr)
 		return ok && sel.Sel.Name == field && c15Field(info, sel.X) == mouseF && rootObj(info, sel.X) == recvObj
 	}
-	guarded := false
-	for _, gd := range g.Guards(calls[0].Loc) {
-		x := unparen(gd.Cond.Expr)
-		pol := gd.Pol
-		for {
-			u, ok := x.(*ast.UnaryExpr)
-			if !ok || u.Op != token.NOT {
-				break
-			}
-			pol = !pol
-			x = unparen(u.X)
-		}
-		if cl, ok := x.(*ast.CallExpr); ok && pol && gd.Cond.Tag == nil && calleeOf(info, cl) == cp.Obj && len(cl.Args) == 2 &&
-			isMouseCoord(cl.Args[0], "Col") && isMouseCoord(cl.Args[1], "Row") {
-			guarded = true
-		}
-	}
+	guarded := e.rootGuard(g, calls[0].Loc, isMouseCoord)
 	c.check(guarded, "C15.d", name+"/hit test guarded by the root surface", hcall.Pos(), "hitTest runs only if the root surface contains (mouse.Col, mouse.Row)",
 		"hitTest runs although the pointer may be outside the root surface (or the containment test swaps Col/Row): the root is never told the pointer left")
-	okArgs := len(hcall.Args) == 4 && isNew(hcall.Args[1]) && isMouseCoord(hcall.Args[2], "Col") && isMouseCoord(hcall.Args[3], "Row")
-	c.check(okArgs, "C15.d", name+"/hit test at the pointer position", hcall.Pos(), "hitTest(s, hits, mouse.Col, mouse.Row)", "hitTest is not called with (surface, hits, mouse.Col, mouse.Row) in that order")
-	// the result is the list that is diffed
+	// the list the hit test fills is the list that is diffed and stored
+	colA, rowA := hm.argOf(hcall, hm.colP), hm.argOf(hcall, hm.rowP)
+	okArgs := colA != nil && rowA != nil && isMouseCoord(colA, "Col") && isMouseCoord(rowA, "Row")
 	okRes := false
-	if as, ok := e.parents[hcall].(*ast.AssignStmt); ok && len(as.Lhs) == 1 && isNew(as.Lhs[0]) {
-		okRes = true
+	switch {
+	case hm.listP != nil:
+		la := hm.argOf(hcall, hm.listP)
+		okArgs = okArgs && la != nil && isNew(la)
+		if as, ok := e.parents[hcall].(*ast.AssignStmt); ok && len(as.Lhs) == 1 && isNew(as.Lhs[0]) {
+			okRes = true
+		}
+	case hm.listF != nil:
+		// collector form: the diffed list is the collector's field, read after the hit test ran
+		if sel, ok := unparen(hcall.Fun).(*ast.SelectorExpr); ok {
+			if robj := rootObj(info, sel.X); robj != nil {
+				ne := unparen(updDefs.resolve(newExpr))
+				if c15Field(info, ne) == hm.listF && rootObj(info, ne) == robj {
+					okRes = true
+					// a local copy of the field must be taken after the call, not before
+					if id, isID := unparen(newExpr).(*ast.Ident); isID {
+						if o := info.ObjectOf(id); o != nil && updDefs.count[o] == 1 {
+							for _, h := range g.Find(func(n ast.Node) bool {
+								as, ok := n.(*ast.AssignStmt)
+								if !ok || len(as.Lhs) != 1 {
+									return false
+								}
+								l, ok := as.Lhs[0].(*ast.Ident)
+								return ok && info.Defs[l] == o
+							}) {
+								if g.ReachesAvoiding(h.Loc, calls[0].Loc, nil) {
+									okRes = false
+								}
+							}
+						}
+					}
+				}
+			}
+		}
 	}
+	c.check(okArgs, "C15.d", name+"/hit test at the pointer position", hcall.Pos(), "hitTest(s, hits, mouse.Col, mouse.Row)", "hitTest is not called with (surface, hits, mouse.Col, mouse.Row) in that order")
 	c.check(okRes, "C15.d", name+"/hit test result is the diffed list", hcall.Pos(), "hits = hitTest(...)", "the result of hitTest is not the list that is diffed and stored")
 }
 
@@ -2723,233 +2911,7 @@ func (e *c15Env) ruleF() {
 // ---------------------------------------------------------------------------
 // C15.g hit testing
 
-func (e *c15Env) ruleG() {
-	c, info := e.c, e.info
-	// containsPoint
-	name := "vxfw.(*SubSurface).containsPoint"
-	cp := c15Func(c, name)
-	if cp == nil {
-		c.undecided("C15.g", name, 0, "function not found")
-	} else {
-		fd := cp.Decl
-		var recvObj types.Object
-		if fd.Recv != nil && len(fd.Recv.List) == 1 && len(fd.Recv.List[0].Names) == 1 {
-			recvObj = info.Defs[fd.Recv.List[0].Names[0]]
-		}
-		var ps []types.Object
-		for _, f := range fd.Type.Params.List {
-			for _, n := range f.Names {
-				ps = append(ps, info.Defs[n])
-			}
-		}
-		retF := c15BoolBody(info, fd.Body.List)
-		if recvObj == nil || len(ps) != 2 || retF == nil {
-			c.undecided("C15.g", name+"/shape", fd.Pos(), "containsPoint is not a side-effect free decision (ifs and returns) over (col, row)")
-		} else {
-			ret := fd.Body
-			colP, rowP := ps[0], ps[1]
-			if ps[0].Name() == "row" || ps[1].Name() == "col" {
-				colP, rowP = ps[1], ps[0]
-			}
-			r := fmt.Sprintf("%p", recvObj)
-			tm := func(path string, nonneg bool) c15Lin {
-				return c15TermLin(r+path, recvObj.Name()+path, nonneg)
-			}
-			col := c15TermLin(fmt.Sprintf("%p", colP), colP.Name(), false)
-			row := c15TermLin(fmt.Sprintf("%p", rowP), rowP.Name(), false)
-			oc, or := tm(".Origin.Col", false), tm(".Origin.Row", false)
-			w, hgt := tm(".Surface.Size.Width", true), tm(".Surface.Size.Height", true)
-			want := map[string]string{
-				oc.add(col, -1).canon():                      "col >= Origin.Col",
-				col.add(oc, -1).add(w, -1).plus(1).canon():   "col < Origin.Col + Width",
-				or.add(row, -1).canon():                      "row >= Origin.Row",
-				row.add(or, -1).add(hgt, -1).plus(1).canon(): "row < Origin.Row + Height",
-			}
-			atoms, isConj := c15Conj(retF)
-			if !isConj {
-				c.undecided("C15.g", name+"/shape", ret.Pos(), "the returned condition is not a conjunction of comparisons")
-			} else {
-				got := map[string]bool{}
-				for _, a := range atoms {
-					got[a.canon()] = true
-				}
-				var wk []string
-				for k := range want {
-					wk = append(wk, k)
-				}
-				sort.Strings(wk)
-				for _, k := range wk {
-					c.check(got[k], "C15.g", name+"/"+want[k], ret.Pos(), "present", "containsPoint does not test "+want[k]+" (half-open rectangle): a widget next to the pointer is hit, or the widget under it is missed")
-					delete(got, k)
-				}
-				var extra []string
-				for _, a := range atoms {
-					if got[a.canon()] {
-						extra = append(extra, a.String()+" <= 0")
-					}
-				}
-				c.check(len(extra) == 0, "C15.g", name+"/no further restriction", ret.Pos(), "exactly the four bounds", "containsPoint also requires "+strings.Join(extra, ", ")+": points inside the surface are rejected")
-			}
-		}
-	}
-	// hitTest
-	name = "vxfw.hitTest"
-	ht := c15Func(c, name)
-	if ht == nil || cp == nil {
-		c.undecided("C15.g", name, 0, "function not found")
-		return
-	}
-	fd := ht.Decl
-	g := c.P.Graph(ht)
-	defs := c15DefsOf(info, fd.Body)
-	var ps []types.Object
-	for _, f := range fd.Type.Params.List {
-		for _, n := range f.Names {
-			ps = append(ps, info.Defs[n])
-		}
-	}
-	if len(ps) != 4 {
-		c.undecided("C15.g", name+"/signature", fd.Pos(), "expected (surface, hits, col, row)")
-		return
-	}
-	sP, hitsP, colP, rowP := ps[0], ps[1], ps[2], ps[3]
-	if ps[2].Name() == "row" || ps[3].Name() == "col" {
-		colP, rowP = ps[3], ps[2]
-	}
-	isObj := func(x ast.Expr, o types.Object) bool {
-		for {
-			x = unparen(x)
-			cv, ok := x.(*ast.CallExpr)
-			if !ok || len(cv.Args) != 1 {
-				break
-			}
-			if tv, ok := info.Types[cv.Fun]; !ok || !tv.IsType() {
-				break
-			}
-			x = cv.Args[0]
-		}
-		id, ok := x.(*ast.Ident)
-		return ok && info.ObjectOf(id) == o
-	}
-	// own entry appended first
-	var ownAppend *ast.AssignStmt
-	ast.Inspect(fd.Body, func(n ast.Node) bool {
-		as, ok := n.(*ast.AssignStmt)
-		if !ok || len(as.Lhs) != 1 || len(as.Rhs) != 1 || !isObj(as.Lhs[0], hitsP) {
-			return true
-		}
-		cl, ok := unparen(as.Rhs[0]).(*ast.CallExpr)
-		if !ok || len(cl.Args) != 2 || !isObj(cl.Args[0], hitsP) {
-			return true
-		}
-		if id, ok := cl.Fun.(*ast.Ident); !ok || id.Name != "append" {
-			return true
-		}
-		lit, ok := defs.resolve(cl.Args[1]).(*ast.CompositeLit)
-		if !ok {
-			return true
-		}
-		okW, okC, okR := false, false, false
-		for _, el := range lit.Elts {
-			kv, ok := el.(*ast.KeyValueExpr)
-			if !ok {
-				continue
-			}
-			switch kv.Key.(*ast.Ident).Name {
-			case "w":
-				sel, ok := unparen(kv.Value).(*ast.SelectorExpr)
-				okW = ok && sel.Sel.Name == "Widget" && rootObj(info, sel.X) == sP
-			case "col":
-				okC = isObj(kv.Value, colP)
-			case "row":
-				okR = isObj(kv.Value, rowP)
-			}
-		}
-		if okW && okC && okR {
-			ownAppend = as
-		}
-		return true
-	})
-	recs := g.Calls(func(fn *types.Func, call *ast.CallExpr) bool { return fn == ht.Obj })
-	if ownAppend == nil {
-		c.bad("C15.g", name+"/the widget itself is recorded", fd.Pos(), "hitTest does not append hitResult{w: s.Widget, col, row} to hits: the surface's own widget is missing from the chain")
-	} else if len(recs) == 1 {
-		c.check(g.MustPrecede(func(n ast.Node) bool { return n == ast.Node(ownAppend) }, recs[0].Loc), "C15.g", name+"/the widget itself is recorded before its descendants", ownAppend.Pos(),
-			"own entry first: deeper widgets come later, the last entry is the deepest", "the recursion into children can run before the surface's own widget is appended: the last entry of the hit list is no longer the deepest widget")
-	}
-	if len(recs) != 1 {
-		c.bad("C15.g", name+"/recursion into children", fd.Pos(), "expected one recursive hitTest call, found %d", len(recs))
-		return
-	}
-	rc := recs[0].Node.(*ast.CallExpr)
-	loops := c15EnclosingLoops(e.parents, rc)
-	var it *c15Iter
-	if len(loops) == 1 {
-		it = c15IterOf(info, defs, loops[0])
-	}
-	if it == nil || !it.full {
-		c.undecided("C15.g", name+"/recursion into children", rc.Pos(), "the recursion is not inside one loop that visits every child")
-		return
-	}
-	xs, _ := unparen(it.x).(*ast.SelectorExpr)
-	c.check(xs != nil && xs.Sel.Name == "Children" && rootObj(info, it.x) == sP, "C15.g", name+"/every child is examined", it.stmt.Pos(), "iterates over s.Children", "the loop does not iterate over the surface's children")
-	guarded := false
-	for _, gd := range g.Guards(recs[0].Loc) {
-		x := unparen(gd.Cond.Expr)
-		pol := gd.Pol
-		for {
-			u, ok := x.(*ast.UnaryExpr)
-			if !ok || u.Op != token.NOT {
-				break
-			}
-			pol = !pol
-			x = unparen(u.X)
-		}
-		if cl, ok := x.(*ast.CallExpr); ok && pol && gd.Cond.Tag == nil && calleeOf(info, cl) == cp.Obj && len(cl.Args) == 2 &&
-			isObj(cl.Args[0], colP) && isObj(cl.Args[1], rowP) {
-			if sel, ok := cl.Fun.(*ast.SelectorExpr); ok && it.isElem(sel.X) {
-				guarded = true
-			}
-		}
-	}
-	c.check(guarded, "C15.g", name+"/recursion only into children containing the point", rc.Pos(), "guarded by child.containsPoint(col, row)",
-		"the recursion is not guarded by child.containsPoint(col, row) (in that order): widgets not under the pointer join the chain, or the one under it is skipped")
-	if len(rc.Args) != 4 {
-		c.undecided("C15.g", name+"/recursion arguments", rc.Pos(), "unexpected argument count")
-		return
-	}
-	s0, _ := unparen(defs.resolve(rc.Args[0])).(*ast.SelectorExpr)
-	c.check(s0 != nil && s0.Sel.Name == "Surface" && it.isElem(s0.X) && isObj(rc.Args[1], hitsP), "C15.g", name+"/recursion on the child's surface with the same list", rc.Pos(),
-		"hitTest(child.Surface, hits, ...)", "the recursion does not descend into the child's surface with the accumulated list")
-	for _, d := range []struct {
-		arg   ast.Expr
-		p     types.Object
-		field string
-	}{{rc.Args[2], colP, "Col"}, {rc.Args[3], rowP, "Row"}} {
-		arg := defs.resolve(d.arg)
-		got := c15LinOf(info, arg)
-		origin, found := it.elemField(arg, "Origin", d.field)
-		pT := c15TermLin(fmt.Sprintf("%p", d.p), d.p.Name(), true)
-		okArg := found && got.canon() == pT.add(origin, -1).canon()
-		c.check(okArg, "C15.g", name+"/child-relative "+strings.ToLower(d.field), d.arg.Pos(), d.p.Name()+" - child.Origin."+d.field,
-			"the child is hit-tested at "+got.String()+" instead of "+d.p.Name()+" - child.Origin."+d.field+": grandchildren are tested against the wrong point")
-	}
-	// result flows back and is returned
-	okBack := false
-	if as, ok := e.parents[rc].(*ast.AssignStmt); ok && len(as.Lhs) == 1 && isObj(as.Lhs[0], hitsP) {
-		okBack = true
-	}
-	retOK := true
-	ast.Inspect(fd.Body, func(n ast.Node) bool {
-		if r, ok := n.(*ast.ReturnStmt); ok {
-			if len(r.Results) != 1 || !isObj(r.Results[0], hitsP) {
-				retOK = false
-			}
-		}
-		return true
-	})
-	c.check(okBack && retOK, "C15.g", name+"/accumulated list is returned", fd.Pos(), "hits = hitTest(...); return hits", "the hits found in children are not accumulated into the returned list")
-}
+// (ruleG: c15g.go)
 
 // ---------------------------------------------------------------------------
 // forward iteration, whatever its spelling
@@ -3163,6 +3125,25 @@ type c15PFlow struct {
 	start    Loc
 	init     int
 	join     func(a, b int) int // default: max
+	// split (optional): a node that decides something the rule state depends on while binding it to a tracked
+	// local (`consumed := app.consumeEvent`): the outcomes (environment, rule state) replace transfer/envAfter
+	// for that node. nil result = not such a node.
+	split func(n ast.Node, env string, st int) []c15Out
+}
+
+type c15Out struct {
+	env string
+	st  int
+}
+
+// step applies one CFG node to one (environment, state) pair.
+func (pf *c15PFlow) step(n ast.Node, env string, st int) []c15Out {
+	if pf.split != nil {
+		if outs := pf.split(n, env, st); outs != nil {
+			return outs
+		}
+	}
+	return []c15Out{{pf.envAfter(n, env), pf.transfer(n, st)}}
 }
 
 func (pf *c15PFlow) j(a, b int) int {
@@ -3456,12 +3437,13 @@ func (pf *c15PFlow) run(start Loc, init int) {
 		for i := from; i < len(b.Nodes); i++ {
 			next := c15PState{}
 			for env, v := range cur {
-				nv := pf.transfer(b.Nodes[i], v)
-				ne := pf.envAfter(b.Nodes[i], env)
-				if old, ok := next[ne]; ok {
-					nv = pf.j(old, nv)
+				for _, o := range pf.step(b.Nodes[i], env, v) {
+					nv, ne := o.st, o.env
+					if old, ok := next[ne]; ok {
+						nv = pf.j(old, nv)
+					}
+					next[ne] = nv
 				}
-				next[ne] = nv
 			}
 			cur = next
 		}
@@ -3565,12 +3547,13 @@ func (pf *c15PFlow) stateAt(l Loc) (int, bool) {
 		for i := from; i < l.Idx; i++ {
 			next := c15PState{}
 			for env, v := range cur {
-				nv := pf.transfer(l.B.Nodes[i], v)
-				ne := pf.envAfter(l.B.Nodes[i], env)
-				if old, ok := next[ne]; ok {
-					nv = pf.j(old, nv)
+				for _, o := range pf.step(l.B.Nodes[i], env, v) {
+					nv, ne := o.st, o.env
+					if old, ok := next[ne]; ok {
+						nv = pf.j(old, nv)
+					}
+					next[ne] = nv
 				}
-				next[ne] = nv
 			}
 			cur = next
 		}
